@@ -223,6 +223,7 @@ def _judge(ctx, c_enc1, c_enc2, c_enc3, c_enc4, c_enc6, cls, indirect):
         ta, fa = o.path.true_atoms(), o.path.false_atoms()
         post = post_of(kw.get("post_byte"))
         size_inc = lin_inc(kw.get("size"), "ind_sz")
+        size_dyn = size_inc is None and re.search(r"\b(byte_len|hex_len)\(", repr(kw.get("size"))) is not None
         max_inc = lin_inc(kw.get("max_size"), "ind_sz")
         anr = kw.get("additional_needs_resolution")
         anr = anr.v if isinstance(anr, Const) else (False if anr is None else None)
@@ -306,7 +307,7 @@ def _judge(ctx, c_enc1, c_enc2, c_enc3, c_enc4, c_enc6, cls, indirect):
                  "post=%#04x" % want if mask == want else "post=%#04x(datasheet %#04x)" % (mask, want),
                  "%s: %s must have post-byte %02X, path emits %02X" % (cls, form.replace("R", reg), want, mask), where)
             w = width_of(add, None, None)
-            _three_way(emit, c_enc2, c_enc3, site, cls, form, extra, size_inc, max_inc, w, choices, where)
+            _three_way(emit, c_enc2, c_enc3, site, cls, form, extra, "dyn" if size_dyn else size_inc, max_inc, w, choices, where)
             if anr:
                 emit(c_enc6, "finding", site, "needs-resolution-without-offset", "%s: path for %s sets additional_needs_resolution" % (cls, form), where)
             continue
@@ -405,7 +406,7 @@ def _judge(ctx, c_enc1, c_enc2, c_enc3, c_enc4, c_enc6, cls, indirect):
                     else:
                         emit(c_enc1, "ok", sitev, "offset bytes = two's complement", "", where)
             w = width_of(add, lo, hi)
-            _three_way(emit, c_enc2, c_enc3, sitev, cls, sign + chosen + ",R", extra, size_inc, max_inc, w, choices, where)
+            _three_way(emit, c_enc2, c_enc3, sitev, cls, sign + chosen + ",R", extra, "dyn" if size_dyn else size_inc, max_inc, w, choices, where)
             continue
         if form == "n,PCR":
             if anr:
@@ -451,7 +452,7 @@ def _judge(ctx, c_enc1, c_enc2, c_enc3, c_enc4, c_enc6, cls, indirect):
                 forms_reached.add(chosen)
                 emit(c_enc1, "ok", sitep + ":" + chosen, "post=%#04x" % mask, "", where)
                 w = width_of(add, None, None)
-                _three_way(emit, c_enc2, c_enc3, sitep + ":" + chosen, cls, chosen, extra, size_inc, max_inc, w, choices, where)
+                _three_way(emit, c_enc2, c_enc3, sitep + ":" + chosen, cls, chosen, extra, "dyn" if size_dyn else size_inc, max_inc, w, choices, where)
     if c_enc4 is not None:
         if not invalid_accepted:
             c_enc4.ok(site0, "every return path is realised by a grammar-valid operand only", where0)
@@ -499,7 +500,11 @@ def _patterns(probes):
 
 
 def _three_way(emit, c2, c3, site, cls, form, extra, size_inc, max_inc, w, choices, where):
-    if size_inc is None:
+    if size_inc == "dyn":
+        emit(c2, "finding", site + ":size", "size-follows-the-operand's-own-length(form has %d extra byte(s))" % extra,
+             "%s: form %s is followed by %d offset byte(s) but size grows by the operand value's own rendered length, which follows its spelling and magnitude" % (cls, form, extra), where)
+        size_inc = None
+    elif size_inc is None:
         emit(c2, "undecided", site, "size-not-affine-in-ind_sz", "", where)
     else:
         emit(c2, "ok" if size_inc == extra else "finding", site + ":size", "size+%d" % extra if size_inc == extra else "size+%d(form has %d extra byte(s))" % (size_inc, extra),
@@ -599,7 +604,8 @@ def enc5(ctx, c):
                     c.check(res == ("post", want), site, "post-byte %#04x" % want, "rejected" if res[0] == "rejected" else "post-byte %#04x (datasheet %#04x)" % (res[1], want),
                             "%s %s: %s; the datasheet bit for %s is %02X" % (m, r, "rejected" if res[0] == "rejected" else "post-byte %02X" % res[1], r, want), where)
             # lists OR their masks
-            for lst, want in (("A,B", 0x06), ("X,Y,%s" % other, 0x70), ("CC,A,B,DP,X,Y,%s,PC" % other, 0xFF), ("D,CC", 0x07)):
+            for lst, want in (("A,B", 0x06), ("X,Y,%s" % other, 0x70), ("CC,A,B,DP,X,Y,%s,PC" % other, 0xFF), ("D,CC", 0x07),
+                              ("D,A", 0x06), ("A,D", 0x06), ("D,B,A", 0x06), ("A,A", 0x02), ("X,%s,X" % other, 0x50)):
                 n += 1
                 res = run(m, lst)
                 c.check(res == ("post", want), "SpecialOperand.translate:%s %s" % (m, lst), "post-byte %#04x" % want, "%s" % (res,),
@@ -767,6 +773,17 @@ def enc7(ctx, c):
             c.check(got.get(ch) == md, "Value.create_from_str:prefix %s" % ch, md, "prefix %s -> %s" % (ch, got.get(ch)), "the operand prefix %s selects %s, it must select %s" % (ch, got.get(ch), md), wc)
     strip = any(isinstance(n, ast.Assign) and re.fullmatch(r"\w+\[1:\]", U(n.value)) for n in ast.walk(cf.node))
     c.shape(strip, "Value.create_from_str:strip", "the prefix character is removed", "prefix removal not recognised", wc)
+    # an FCC operand is a delimited string whose delimiter may be any character, < > # included: the string attempt must see the
+    # operand before a prefix character is taken off it
+    i_str = i_strip = None
+    for i, st in enumerate(cf.node.body):
+        if i_str is None and any(isinstance(n, ast.Call) and U(n.func) == "StringValue" for n in ast.walk(st)):
+            i_str = i
+        if i_strip is None and any(isinstance(n, ast.Assign) and re.fullmatch(r"\w+\[1:\]", U(n.value)) for n in ast.walk(st)):
+            i_strip = i
+    if i_str is not None and i_strip is not None:
+        c.check(i_str < i_strip, "Value.create_from_str:string-first", "StringValue is tried on the untouched operand", "the prefix is stripped before StringValue is tried",
+                "Value.create_from_str removes a leading < > # before trying StringValue: FCC <AB< loses its opening delimiter and is rejected or mis-read", wc)
     hint = [n for n in ast.walk(cf.node) if isinstance(n, ast.If) and "is_16_bit" in U(n.test)]
     ok = bool(hint) and any(isinstance(x, ast.Assign) and U(x.targets[0]) == "size_hint" and try_fold(x.value) == 4 for x in hint[0].body)
     c.shape(ok, "Value.create_from_str:16-bit", "16-bit instructions give numeric operands 4 hex digits", "size-hint handling not recognised", wc)
@@ -805,6 +822,19 @@ def enc7(ctx, c):
         acc = sorted(set(re.findall(r"'([ABD])'", t)))
         st.append("accumulators=%s" % "".join(acc))
         steps[cls] = st
+        # whether `A,X` is an accumulator offset is a matter of syntax: translate() decides it from the text alone, so a test that lets
+        # the symbol table overrule it here makes the two methods disagree about the same operand
+        for n_ in ast.walk(f.node):
+            if isinstance(n_, ast.Compare) and len(n_.ops) == 1 and isinstance(n_.ops[0], (ast.In, ast.NotIn)) and isinstance(n_.comparators[0], ast.Constant) \
+                    and isinstance(n_.comparators[0].value, str) and len(n_.comparators[0].value) > 1 and "self.left" in U(n_.left):
+                c.finding("%s.resolve_symbols:accumulator-test" % cls, "substring test %s" % U(n_),
+                          "%s.resolve_symbols decides whether the offset is an accumulator with `%s`, a substring test: an offset spelled AB or BD is taken for an accumulator, "
+                          "is never looked up, and the statement is encoded without the label's value" % (cls, U(n_)), repo.loc(f, n_))
+        for n_ in ast.walk(f.node):
+            if isinstance(n_, ast.If) and re.search(r"'A'|ACCUMULATOR|accumulator", U(n_.test)) and "symbol_table" in U(n_.test):
+                c.finding("%s.resolve_symbols:accumulator-test" % cls, "the accumulator test consults the symbol table (%s)" % U(n_.test)[:70],
+                          "%s.resolve_symbols treats A, B or D as a symbol when the program defines one of that name (`%s`), while translate() still encodes the accumulator "
+                          "offset form for the same text: the meaning of `A,X` then depends on unrelated labels" % (cls, U(n_.test)[:80]), repo.loc(f, n_))
     a, b = steps["IndexedOperand"], steps["ExtendedIndexedOperand"]
     if any(x.endswith("?") for x in a + b) or "accumulators=" in (a[3], b[3]):
         c.undecided("indexed resolve_symbols", "steps-not-recognised", "%s / %s" % (a, b), repo.cls("IndexedOperand").module.rel)
